@@ -197,14 +197,26 @@ func Worker(e Engine, tier string, seed uint64, shard, of int, runs uint64, know
 			// state left behind by earlier runs of this worker. Make the history part of the replay
 			// and minimise it (ddmin over the prelude, each trial in a fresh process).
 			var prelude []json.RawMessage
-			first := uint64(shard)
-			if n := (i - uint64(shard)) / uint64(of); n > 1500 {
-				first = i - 1500*uint64(of)
+			confirmed := false
+			for _, depth := range []uint64{1500, 25000} {
+				// the last `depth` plans of this worker; the shorter history first (cheaper to minimise)
+				first := uint64(shard)
+				if n := (i - uint64(shard)) / uint64(of); n > depth {
+					first = i - depth*uint64(of)
+				}
+				prelude = prelude[:0]
+				for j := first; j < i; j += uint64(of) {
+					prelude = append(prelude, PlanJSON(e.NewPlan(NewRand(Mix(seed, m.Property, j)), tier, j)))
+				}
+				if fresh(prelude, unmin) {
+					confirmed = true
+					break
+				}
+				if first == uint64(shard) {
+					break // that was the whole history
+				}
 			}
-			for j := first; j < i; j += uint64(of) {
-				prelude = append(prelude, PlanJSON(e.NewPlan(NewRand(Mix(seed, m.Property, j)), tier, j)))
-			}
-			if !fresh(prelude, unmin) {
+			if !confirmed {
 				out.Found = append(out.Found, Found{Sig: v.Sig, Detail: v.Detail, Run: i, Plan: unmin, Unmin: unmin, Unconfirmed: true})
 				continue
 			}
